@@ -299,7 +299,10 @@ class NonBondEngine():
                 if gndx_pair not in exclusions:
                     other_atype = self.atypes[gndx_pair]
                     params = self.interaction_matrix[frozenset([current_atype, other_atype])]
-                    force += POTENTIAL_FUNC[potential](dist, point, self.positions[gndx_pair], params)
+                    # the pair force acts along the minimum image of the distance vector
+                    vect = point - self.positions[gndx_pair]
+                    vect = vect - self.boxsize * np.round(vect / self.boxsize)
+                    force += POTENTIAL_FUNC[potential](dist, point, point - vect, params)
         return force
 
     def compute_bending_probability(self, lp, point, mol_idx, node_b, node_c):
